@@ -98,6 +98,7 @@ type Case struct {
 	Local     string       `json:"local"`    // local keymap set by the probe command "probe-setlocal"
 	RawOut    bool         `json:"rawout"`   // log the raw bytes written to the tty at every wait
 	DumpCfg   bool         `json:"dumpcfg"`  // log the bind tables and variables after set-up
+	Free      bool         `json:"free"`     // the key reader is never parked: schedules are driven by settle / type / rel (C20)
 	Sessions  [][]Action   `json:"sessions"`
 	HangMs    int          `json:"hangms"`
 }
@@ -573,8 +574,47 @@ func runCase(cs *Case, ci int, pty *ptyPair, em *emu, home string) (alive bool) 
 	for si, sess := range cs.Sessions {
 		done := make(chan struct{})
 		g = newGate()
+		g.free = cs.Free
 		readline.VerifSetStdin(g)
 		curSess = si
+		var auxMu sync.Mutex
+		mainG := 0
+		mainGf := func() int { auxMu.Lock(); defer auxMu.Unlock(); return mainG }
+		auxG := []int{}
+		auxFin := map[int]bool{}
+		auxDone := func(i int) bool { auxMu.Lock(); defer auxMu.Unlock(); return auxFin[i] }
+		startAux := func(kind string, fn func()) {
+			auxMu.Lock()
+			idx := len(auxG)
+			auxG = append(auxG, 0)
+			auxMu.Unlock()
+			before := em.queries()
+			logj(map[string]any{"ev": "auxstart", "c": cs.ID, "s": si, "i": idx + 1, "what": kind})
+			ready := make(chan struct{})
+			go func() {
+				defer func() {
+					if r := recover(); r != nil {
+						st := string(debug.Stack())
+						logj(map[string]any{"ev": "panic", "c": cs.ID, "s": si, "val": fmt.Sprint(r), "site": panicSite(st), "stack": st, "aux": true})
+					}
+				}()
+				auxMu.Lock()
+				auxG[idx] = goid()
+				auxMu.Unlock()
+				close(ready)
+				fn()
+				auxMu.Lock()
+				auxFin[idx] = true
+				auxMu.Unlock()
+				logj(map[string]any{"ev": "auxdone", "c": cs.ID, "s": si, "i": idx + 1, "what": kind})
+			}()
+			<-ready
+			// its cursor query must have reached the terminal before anything else is decided
+			deadline := time.Now().Add(2 * time.Second)
+			for em.queries() == before && !auxDone(idx) && time.Now().Before(deadline) {
+				time.Sleep(200 * time.Microsecond)
+			}
+		}
 		em.setHold(cs.Hold)
 		logj(map[string]any{"ev": "session", "c": cs.ID, "s": si})
 		go func() {
@@ -585,6 +625,9 @@ func runCase(cs *Case, ci int, pty *ptyPair, em *emu, home string) (alive bool) 
 				}
 				close(done)
 			}()
+			auxMu.Lock()
+			mainG = goid()
+			auxMu.Unlock()
 			line, err := rl.Readline()
 			logj(map[string]any{"ev": "return", "c": cs.ID, "s": si, "line": strInts(line), "err": errClass(err)})
 		}()
@@ -724,7 +767,85 @@ func runCase(cs *Case, ci int, pty *ptyPair, em *emu, home string) (alive bool) 
 				em.setHold(false)
 			case "rel":
 				// S == "unhold": stop holding in the same critical section (no query can slip in between)
-				em.releaseOpt(a.N, unhex(a.H), a.S == "unhold")
+				if a.S == "before" {
+					em.releaseBefore(a.N, unhex(a.H))
+				} else {
+					em.releaseOpt(a.N, unhex(a.H), a.S == "unhold")
+				}
+			case "settle":
+				lim := 3 * time.Second
+				if a.N > 0 {
+					lim = time.Duration(a.N) * time.Millisecond
+				}
+				auxMu.Lock()
+				ag := append([]int{}, auxG...)
+				auxMu.Unlock()
+				st := settle(em, isDone, mainGf, ag, auxDone, lim)
+				m := map[string]any{"ev": "settle", "c": cs.ID, "s": si, "m": st.Main, "aux": st.Aux, "head": st.Head, "held": st.Held, "quiet": st.Quiet}
+				if !st.Quiet {
+					m["stacks"] = stacks()
+				}
+				if a.S == "screen" {
+					em.drain()
+					flushToks(si)
+					for k, v := range snap() {
+						if _, ok := m[k]; !ok {
+							m[k] = v
+						}
+					}
+					screenFields(m)
+				}
+				logj(m)
+			case "aux":
+				switch a.S {
+				case "refresh":
+					startAux("refresh", func() { rl.Display.Refresh() })
+				case "winch":
+					// the library's own SIGWINCH handler goroutine does the work
+					auxMu.Lock()
+					idx := len(auxG)
+					auxG = append(auxG, -1)
+					auxMu.Unlock()
+					before := em.queries()
+					logj(map[string]any{"ev": "auxstart", "c": cs.ID, "s": si, "i": idx + 1, "what": "winch"})
+					if a.W > 0 {
+						pty.setSize(a.W, a.N)
+						em.resize(a.W, a.N)
+					}
+					syscall.Kill(os.Getpid(), syscall.SIGWINCH)
+					deadline := time.Now().Add(2 * time.Second)
+					for em.queries() == before && time.Now().Before(deadline) {
+						time.Sleep(200 * time.Microsecond)
+					}
+					go func() {
+						// finished when the handler goroutine is back in its select after this query was answered
+						for {
+							time.Sleep(500 * time.Microsecond)
+							if isDone() {
+								return
+							}
+							idle := false
+							for _, st := range gdump() {
+								if strings.Contains(st, "display.WatchResize") && !strings.Contains(st, "display.(*Engine).Refresh") && !strings.Contains(st, "GenerateCached") {
+									idle = true
+								}
+							}
+							if idle {
+								auxMu.Lock()
+								auxFin[idx] = true
+								auxMu.Unlock()
+								logj(map[string]any{"ev": "auxdone", "c": cs.ID, "s": si, "i": idx + 1, "what": "winch"})
+								return
+							}
+						}
+					}()
+				default:
+					msg := a.H
+					if msg == "" {
+						msg = "async"
+					}
+					startAux("printf", func() { rl.Printf("%s", msg) })
+				}
 			case "type": // write bytes to the tty without touching the gate
 				pty.master.Write(unhex(a.H))
 			case "letgo":
@@ -770,7 +891,15 @@ func runCase(cs *Case, ci int, pty *ptyPair, em *emu, home string) (alive bool) 
 				logj(map[string]any{"ev": "stacks", "c": cs.ID, "s": si, "g": stacks(), "held": em.held()})
 			}
 		}
-		if !hung {
+		if !hung && cs.Free {
+			// schedule-driven run: the call must have returned by now
+			select {
+			case <-done:
+			case <-time.After(300 * time.Millisecond):
+				logj(map[string]any{"ev": "stuck", "c": cs.ID, "s": si, "stacks": stacks(), "held": em.held()})
+				hung = true
+			}
+		} else if !hung {
 			// end of script: the call has returned, or is parked at the gate
 			select {
 			case <-done:
@@ -780,6 +909,21 @@ func runCase(cs *Case, ci int, pty *ptyPair, em *emu, home string) (alive bool) 
 				} else if !isDone() {
 					reportHang("end")
 				}
+			}
+		}
+		if cs.Free && !hung {
+			// a redisplay left blocked in a read of stdin would compete with the next case: this process is spent
+			auxMu.Lock()
+			left := 0
+			for i := range auxG {
+				if !auxFin[i] {
+					left++
+				}
+			}
+			auxMu.Unlock()
+			if left > 0 {
+				logj(map[string]any{"ev": "auxstuck", "c": cs.ID, "s": si, "n": left, "stacks": stacks()})
+				hung = true
 			}
 		}
 		if hung {
